@@ -1,6 +1,7 @@
 package rules
 
 import (
+	"go/token"
 	"sort"
 	"strings"
 
@@ -114,18 +115,67 @@ func c09Collection(r *an.Run) {
 				r.Check(!il.Loop.Blocks[list.Block()] && il.Loop.Header.Dominates(list.Block()), short(f)+"|P-after-p", list.Pos(), "the -P list is loaded after all -p patches")
 				r.Check(!il.Loop.Blocks[reader.Block()] && !an.Reach([]*ssa.BasicBlock{il.Loop.Header}, nil)[reader.Block()], short(f)+"|stdin-first", reader.Pos(), "a patch on stdin is loaded before anything else")
 			}
-			// stdin only when neither -p nor -P
-			cds := r.P.AllCtrlDeps(reader.Block())
-			fields := map[string]bool{}
-			for _, cd := range cds {
-				iff := cd.Block.Instrs[len(cd.Block.Instrs)-1].(*ssa.If)
-				for v := range an.BackSlice(iff.Cond, an.SliceOpts{ThroughCalls: true}) {
-					if p := an.Path(v); strings.HasSuffix(p, ".Patches") || strings.HasSuffix(p, ".PatchesFile") {
-						fields[p[strings.LastIndex(p, ".")+1:]] = true
+			// stdin exactly when neither -p nor -P is given: path-sensitive table over the two emptiness tests
+			emptyOf := func(c ssa.Value) string {
+				cmp, ok := c.(*ssa.BinOp)
+				if !ok {
+					return ""
+				}
+				var lenArg ssa.Value
+				if lc, ok := cmp.X.(*ssa.Call); ok && an.IsCallTo(lc, "builtin:len") {
+					if k, isc := an.ConstInt(cmp.Y); isc && k == 0 {
+						lenArg = lc.Call.Args[0]
 					}
 				}
+				if lenArg == nil {
+					return ""
+				}
+				name := loadedField(lenArg)
+				if name != "Patches" && name != "PatchesFile" {
+					return ""
+				}
+				switch cmp.Op {
+				case token.EQL:
+					return name + "-empty"
+				case token.NEQ, token.GTR:
+					return "not:" + name + "-empty"
+				}
+				return ""
 			}
-			r.Check(fields["Patches"] && fields["PatchesFile"], short(f)+"|stdin-condition", reader.Pos(), "stdin is read only when both -p and -P are absent")
+			var stopAt []*ssa.BasicBlock
+			stopAt = append(stopAt, reader.Block())
+			for _, l := range an.Loops(f) {
+				stopAt = append(stopAt, l.Header)
+			}
+			paths, err := an.EnumeratePathsFrom(f.Blocks[0], emptyOf, func(b *ssa.BasicBlock) bool {
+				for _, x := range stopAt {
+					if x == b {
+						return true
+					}
+				}
+				return false
+			}, 64, false)
+			good := err == nil && len(paths) >= 2
+			for _, p := range paths {
+				get := func(a string) (bool, bool) {
+					if v, ok := p.Atoms[a]; ok {
+						return v, true
+					}
+					if v, ok := p.Atoms["not:"+a]; ok {
+						return !v, true
+					}
+					return false, false
+				}
+				pe, pk := get("Patches-empty")
+				fe, fk := get("PatchesFile-empty")
+				reads := p.End == reader.Block()
+				both := pk && pe && fk && fe
+				neither := (pk && !pe) || (fk && !fe)
+				if reads != both || (!reads && !neither) {
+					good = false
+				}
+			}
+			r.Check(good, short(f)+"|stdin-condition", reader.Pos(), "stdin is read exactly when both -p and -P are absent (%d paths; %v)", len(paths), err)
 		}
 		n++
 	}
@@ -393,14 +443,43 @@ func c09NonMatchingNoop(r *an.Run) {
 					}
 				}
 			}
-			// loop-carried state is unchanged on the edges taken after a false verdict
+			// loop-carried state is unchanged on the edges taken after a false verdict (resolved through
+			// the phis of intermediate join blocks such as a for-loop's post block)
 			changed := 0
+			trueEdges := edgesWhen(an.BranchesOn(f, vc.Verdict), true)
+			var unchanged func(v ssa.Value, hphi *ssa.Phi, depth int) bool
+			unchanged = func(v ssa.Value, hphi *ssa.Phi, depth int) bool {
+				if v == ssa.Value(hphi) {
+					return true
+				}
+				phi, ok := v.(*ssa.Phi)
+				if !ok || depth > 6 || !region[phi.Block()] {
+					return false
+				}
+				for i, e := range phi.Edges {
+					pred := phi.Block().Preds[i]
+					if !region[pred] {
+						continue
+					}
+					viaTrue := false
+					for si, sx := range pred.Succs {
+						if sx == phi.Block() && skipEdges(trueEdges)(pred, si) {
+							viaTrue = true
+						}
+					}
+					if viaTrue {
+						continue
+					}
+					if !unchanged(e, hphi, depth+1) {
+						return false
+					}
+				}
+				return true
+			}
+			il := an.AsIndexLoop(l)
 			for _, in := range l.Header.Instrs {
 				phi, ok := in.(*ssa.Phi)
-				if !ok {
-					continue
-				}
-				if il := an.AsIndexLoop(l); il != nil && phi == il.Phi {
+				if !ok || (il != nil && phi == il.Phi) {
 					continue
 				}
 				for i, e := range phi.Edges {
@@ -408,14 +487,13 @@ func c09NonMatchingNoop(r *an.Run) {
 					if !region[pred] {
 						continue
 					}
-					// the edge pred->header must not be a true-verdict edge
 					viaTrue := false
 					for si, sx := range pred.Succs {
-						if sx == l.Header && skipEdges(edgesWhen(an.BranchesOn(f, vc.Verdict), true))(pred, si) {
+						if sx == l.Header && skipEdges(trueEdges)(pred, si) {
 							viaTrue = true
 						}
 					}
-					if !viaTrue && e != ssa.Value(phi) {
+					if !viaTrue && !unchanged(e, phi, 0) {
 						changed++
 					}
 				}
